@@ -7,6 +7,7 @@ import (
 	"os/exec"
 	"strings"
 	"sync"
+	"time"
 
 	helpers "github.com/SKAARHOJ/rawpanel-lib"
 	rwp "github.com/SKAARHOJ/rawpanel-lib/ibeam_rawpanel"
@@ -194,7 +195,51 @@ func concRun(seed uint64, goroutines, rounds int) string {
 	return "ok"
 }
 
+// conc.debug: the same inputs (plus strings that are not valid UTF-8) with DebugRWPhelpers = true, in a child process whose
+// stdout (the debug dump) is discarded; the child must finish within 20 s.
+func concDebugChild(seed uint64) {
+	helpers.DebugRWPhelpersMU.Lock()
+	helpers.DebugRWPhelpers = true
+	helpers.DebugRWPhelpersMU.Unlock()
+	ci := concBuild(seed)
+	bad := "_model=SK\xffRCP"
+	for round := 0; round < 2; round++ {
+		ci.evalAll(round)
+		helpers.RawPanelASCIIstringsToOutboundMessages([]string{bad, "_serial=\xfe", "Msg=\xc3"})
+		helpers.RawPanelASCIIstringsToInboundMessages([]string{"HWCt#1=|||\xff", "SetCalibrationProfile=\xff"})
+		helpers.InboundMessagesToRawPanelASCIIstrings([]*rwp.InboundMessage{{States: []*rwp.HWCState{{HWCIDs: []uint32{1}, HWCText: &rwp.HWCText{Title: "\xff\xfe"}}}}})
+		helpers.OutboundMessagesToRawPanelASCIIstrings([]*rwp.OutboundMessage{{PanelInfo: &rwp.PanelInfo{Model: "\xff"}}})
+		var rd helpers.ASCIIreader
+		rd.Parse("HWCt#1=|||\xff")
+	}
+}
+
+func concDebug(seed string) string {
+	exe, _ := os.Executable()
+	c := exec.Command(exe, "debug-child", "-seed", seed)
+	c.Stdout = nil
+	c.Stderr = nil
+	if err := c.Start(); err != nil {
+		return "child-failed"
+	}
+	done := make(chan error, 1)
+	go func() { done <- c.Wait() }()
+	select {
+	case err := <-done:
+		if err != nil {
+			return "panic:debug-child-" + strings.ReplaceAll(err.Error(), " ", "_")
+		}
+		return "ok"
+	case <-time.After(20 * time.Second):
+		c.Process.Kill()
+		return "hang"
+	}
+}
+
 func (e *concExec) Exec(cmd string, a []string) string {
+	if cmd == "conc.debug" {
+		return concDebug(a[0])
+	}
 	if cmd != "conc.run" {
 		return "panic:unknown_record"
 	}
@@ -224,6 +269,22 @@ func genC06(r *Rng, n int, tier string) {
 	// totality halves (malformed / wild inputs through the four converters and the reader)
 	families["c06in"].Gen(r, n, tier)
 	families["c06out"].Gen(r, n, tier)
+	// the streaming reader (and the batch decoder) on chunk lines with hostile numbers: huge / overflowing indices and
+	// announced chunk counts, through the three feeding disciplines
+	huge := []string{"99999999999999999999", "9223372036854775807", "300000000000000", "18446744073709551616", "4294967296", "2147483648", "000000000000000000001"}
+	for _, h := range huge {
+		for _, kw := range []string{"HWCg#", "HWCgRGB#", "HWCgGray#"} {
+			emitHist([]string{kw + "1=0/" + h + ",64x32:AAAA"})
+			emitHist([]string{" " + kw + "9=0/" + h + ",1x1,0,0:\n"})
+			emitHist([]string{kw + "1=0/1,8x8:AQ==", kw + "1=" + h + ":Ag=="})
+			emitHist([]string{kw + "1=0/1," + h + "x" + h + "," + h + "," + h + ":AQ==", kw + "1=1:Ag=="})
+			emitHist([]string{kw + h + "=0/0,8x8:AQ=="})
+		}
+	}
+	// debug dump switched on (child process, its stdout discarded): every converter and the reader must still return
+	for i := 0; i < 2; i++ {
+		emit("conc.debug", 300+i)
+	}
 	// concurrency half
 	for i := 0; i < 6; i++ {
 		emit("conc.run", 100+i, r.Pick(4, 8, 16, 32), r.Pick(2, 4), 0)
